@@ -33,41 +33,85 @@ def statics_are_write_only():
 def run_cases_san(ctx, cases, kind, **kw):
     """runs the differential engine on a sanitizer build; returns dict with report statistics (violations are filed on ctx)"""
     sandir = os.path.join(ctx.work, 'san_' + kind)
+    env = san_env(ctx, kind, sandir)
+    bad = statics_are_write_only() if kind == 'tsan' else []
+    if bad:
+        ctx.inconc('a suppressed statistics static is read somewhere: suppression list no longer justified: %s' % bad[:2])
+    stats = diffrun.run_cases(ctx, cases, sanitizer=kind, profile=kind, run_env=env, closure=False, **kw)
+    st = collect_reports(ctx, sandir, kind)
+    st['programs'] = stats['programs']
+    return st
+
+
+def collect_reports(ctx, sandir, kind, what='generated programs'):
+    reports = []
+    for path in glob.glob(os.path.join(sandir, 'rep.*')):
+        text = open(path, errors='replace').read()
+        for block in re.split(r'(?m)^={18}\s*$', text):
+            if 'WARNING: ThreadSanitizer' in block or 'ERROR: AddressSanitizer' in block:
+                reports.append(block)
+    relevant, ignored = {}, 0
+    for b in reports:
+        frames = re.findall(r'#\d+ (\S.*?) (\S+?):(\d+)', b)
+        mine = [(fn, fl) for fn, fl, ln in frames if '/repo/' in fl or ('/ws/shard' in fl) or ('/.work/' in fl and '/shard' in fl)]
+        if not mine:
+            ignored += 1
+            continue
+        key = (re.search(r'(ThreadSanitizer|AddressSanitizer): ([^\n(]+)', b).group(2).strip(),) + tuple(mine[:2])
+        relevant.setdefault(key, b)
+    for key, b in relevant.items():
+        ctx.violation('%s_%s' % (kind, core.stable_hash(repr(key)) % 100000),
+                      {'case': 'sanitizer', 'sanitizer': kind, 'report': b.split('\n')[:60], 'summary': '%s report: %s' % (kind, ' | '.join(map(str, key))[:300])},
+                      {'kind': 'sanitizer', 'sanitizer': kind, 'what': key[0], 'frames': [f[0] for f in key[1:]]})
+    return {'sanitizer': kind, 'workload': what, 'reports': len(reports), 'reports_with_repo_frames_deduplicated': len(relevant), 'reports_only_in_dependencies': ignored}
+
+
+def san_env(ctx, kind, sandir):
     os.makedirs(sandir, exist_ok=True)
     env = dict(os.environ)
     if kind == 'tsan':
         supp = os.path.join(sandir, 'supp.txt')
         with open(supp, 'w') as f:
             for s in STAT_STATICS:
-                f.write('race:%s\\n' % s)
+                f.write('race:%s\n' % s)
         env['TSAN_OPTIONS'] = 'halt_on_error=0 exitcode=0 report_signal_unsafe=0 log_path=%s suppressions=%s' % (os.path.join(sandir, 'rep'), supp)
     else:
         env['ASAN_OPTIONS'] = 'halt_on_error=0 exitcode=0 detect_leaks=0 log_path=%s' % os.path.join(sandir, 'rep')
-    bad = statics_are_write_only() if kind == 'tsan' else []
-    if bad:
-        ctx.inconc('a suppressed statistics static is read somewhere: suppression list no longer justified: %s' % bad[:2])
-    stats = diffrun.run_cases(ctx, cases, sanitizer=kind, profile=kind, run_env=env, closure=False, **kw)
-    reports = []
-    for path in glob.glob(os.path.join(sandir, 'rep.*')):
-        text = open(path, errors='replace').read()
-        for block in re.split(r'(?m)^={18}\\s*$', text):
-            if 'WARNING: ThreadSanitizer' in block or 'ERROR: AddressSanitizer' in block:
-                reports.append(block)
-    relevant, ignored = {}, 0
-    for b in reports:
-        frames = re.findall(r'#\\d+ (\\S.*?) (\\S+?):(\\d+)', b)
-        mine = [(fn, fl) for fn, fl, ln in frames if '/repo/' in fl or ('/ws/shard' in fl) or ('/.work/' in fl and '/shard' in fl)]
-        if not mine:
-            ignored += 1
-            continue
-        key = (b.split('\\n')[0][:80] if False else re.search(r'(ThreadSanitizer|AddressSanitizer): ([^\\n(]+)', b).group(2).strip(),) + tuple(mine[:2])
-        relevant.setdefault(key, b)
-    for key, b in relevant.items():
-        ctx.violation('%s_%s' % (kind, core.stable_hash(repr(key)) % 100000),
-                      {'case': 'sanitizer', 'sanitizer': kind, 'report': b.split('\\n')[:60], 'summary': '%s report: %s' % (kind, ' | '.join(map(str, key))[:300])},
-                      {'kind': 'sanitizer', 'sanitizer': kind, 'what': key[0], 'frames': [f[0] for f in key[1:]]})
-    return {'sanitizer': kind, 'reports': len(reports), 'reports_with_repo_frames_deduplicated': len(relevant), 'reports_only_in_dependencies': ignored,
-            'programs': stats['programs']}
+    return env
+
+
+def libmon_san(ctx, kind, binname, args, timeout=3600):
+    """builds harness/libmon with a sanitizer (debug profile, nightly) and runs one monitor binary under it.
+    Returns (records, report statistics)"""
+    import json
+    pre, extra, rustflags, sub = core.SANITIZERS[kind]
+    tdir = os.path.join(core.TARGET, 'libmon_' + kind)
+    lock = os.path.join(core.REPO, 'Cargo.lock')
+    if os.path.exists(lock) and not os.path.exists(os.path.join(libmon.LIBMON, 'Cargo.lock')):
+        import shutil
+        shutil.copy(lock, os.path.join(libmon.LIBMON, 'Cargo.lock'))
+    env = core.cargo_env({'CARGO_TARGET_DIR': tdir, 'RUSTFLAGS': rustflags})
+    p = subprocess.run(['cargo'] + pre + ['build', '--offline', '--bin', binname] + extra, cwd=libmon.LIBMON, env=env, stdout=subprocess.PIPE, stderr=subprocess.STDOUT, text=True, timeout=3600)
+    if p.returncode != 0:
+        ctx.inconc('%s build of libmon failed: %s' % (kind, p.stdout[-400:]))
+        return [], {'sanitizer': kind, 'reports': 0, 'build_failed': True}
+    sandir = os.path.join(ctx.work, 'san_%s_%s' % (kind, binname))
+    renv = san_env(ctx, kind, sandir)
+    try:
+        r = subprocess.run([os.path.join(tdir, sub, binname)] + list(args), env=renv, stdout=subprocess.PIPE, stderr=subprocess.PIPE, text=True, timeout=timeout)
+        out = r.stdout
+    except subprocess.TimeoutExpired:
+        ctx.inconc('%s run of %s timed out' % (kind, binname))
+        out = ''
+    recs = []
+    for line in out.splitlines():
+        if line.startswith('{'):
+            try:
+                recs.append(json.loads(line))
+            except ValueError:
+                pass
+    st = collect_reports(ctx, sandir, kind, what='%s %s' % (binname, ' '.join(args)))
+    return recs, st
 
 
 MIRI_FLAGS = '-Zmiri-disable-isolation -Zmiri-tree-borrows -Zmiri-ignore-leaks'
